@@ -41,8 +41,8 @@ def base():
 
 
 def bound(tier):
-    a3 = len(ADDRS) if tier == "thorough" else len(ADDRS_T)
-    return (f"all histories of depth <=2 over {len(ADDRS)}x{len(LENGTHS)} events and of depth 3 over {a3}x{len(LENGTHS_T)} events, "
+    a3, l3 = (len(ADDRS), len(LENGTHS)) if tier == "thorough" else (len(ADDRS_T), len(LENGTHS_T))
+    return (f"all histories of depth <=2 over {len(ADDRS)}x{len(LENGTHS)} events and of depth 3 over {a3}x{l3} events, "
             "x copier header on/off")
 
 
@@ -56,7 +56,7 @@ def cases(tier, seed):
         yield ("d1", header)
         for i in range(len(ev)):
             yield ("d2", header, i)
-    ev3 = events(ADDRS if tier == "thorough" else ADDRS_T, LENGTHS_T)
+    ev3 = events(ADDRS, LENGTHS) if tier == "thorough" else events(ADDRS_T, LENGTHS_T)
     for header in (False, True):
         for i in range(len(ev3)):
             for j in range(len(ev3)):
@@ -201,7 +201,7 @@ def run_case(case):
         ev = events(ADDRS, LENGTHS)
         hists = [[ev[case[2]], e] for e in ev]
     else:
-        ev = events(ADDRS if case[4] == "thorough" else ADDRS_T, LENGTHS_T)
+        ev = events(ADDRS, LENGTHS) if case[4] == "thorough" else events(ADDRS_T, LENGTHS_T)
         hists = [[ev[case[2]], ev[case[3]], e] for e in ev]
     for h in hists:
         t, tag = run_history(h, header, viol)
